@@ -165,7 +165,7 @@ impl UriBuilder {
 //@@ end
 
 //@@ fn UriBuilder::push_list_query_parameter vfn=UriBuilder::push_list_query_parameter
-//@@ subst for value in values ==> for value in it: values
+//@@ subst for $LOOPVAR0 in $LOOPEXPR0 ==> for $LOOPVAR0 in it: $LOOPEXPR0
 //@@ spec
         ensures
             // one pair per supplied value, in order, nothing else; an empty list leaves the builder untouched
